@@ -377,16 +377,16 @@ Proof.
 Qed.
 
 (* PusTm.unpack of the layout, with the timestamp length of the layout *)
-Lemma s1_tm_unpack_layout service k apid seq msgcnt ref dest version stamp src :
+Lemma s1_tm_unpack_layout_app service k apid seq msgcnt ref dest version stamp src rest :
   tm_args_valid service k apid seq msgcnt ref dest version stamp src ->
-  tm_unpack (tm_layout service k apid seq msgcnt ref dest version stamp src) (len stamp) =
+  tm_unpack (tm_layout service k apid seq msgcnt ref dest version stamp src ++ rest) (len stamp) =
   Ok (mk_tm service k apid seq msgcnt ref dest version stamp src
             (Some (crc_octets (tm_body service k apid seq msgcnt ref dest version stamp src)))).
 Proof.
   intros V. pose proof (tm_hdr_valid _ _ _ _ _ _ _ _ _ _ V) as HV.
   pose proof (tm_body_wf _ _ _ _ _ _ _ _ _ _ V) as WB.
   unfold tm_args_valid in V. destruct V as (Hs & Hk & Ha & Hq & Hm & Hr & Hd & Hv & Ws & Wd & L).
-  pose proof (len_nonneg stamp) as Ls. pose proof (len_nonneg src) as Lr.
+  pose proof (len_nonneg stamp) as Ls. pose proof (len_nonneg src) as Lr. pose proof (len_nonneg rest) as Lre.
   set (h := {| ver := version; ptype := 0; shf := 1; apid := apid; sflags := 3; scount := seq;
                dlen := 7 + len stamp + len src + 1 |}) in *.
   set (body := tm_body service k apid seq msgcnt ref dest version stamp src) in *.
@@ -395,19 +395,19 @@ Proof.
   assert (Lh : len (sph_layout h) = 6) by reflexivity.
   assert (L7 : len sec7 = 7) by reflexivity.
   assert (Lc : len crc = 2) by reflexivity.
-  assert (D : tm_layout service k apid seq msgcnt ref dest version stamp src
-              = sph_layout h ++ (sec7 ++ stamp ++ src ++ crc)).
+  assert (D : tm_layout service k apid seq msgcnt ref dest version stamp src ++ rest
+              = sph_layout h ++ (sec7 ++ stamp ++ src ++ crc ++ rest)).
   { unfold tm_layout. fold body. fold crc. unfold body, tm_body. fold h. fold sec7.
     rewrite <- !app_assoc. reflexivity. }
-  assert (Ltot : len (sph_layout h ++ (sec7 ++ stamp ++ src ++ crc)) = 15 + len stamp + len src).
+  assert (Ltot : len (sph_layout h ++ (sec7 ++ stamp ++ src ++ crc ++ rest)) = 15 + len stamp + len src + len rest).
   { rewrite !len_app, Lh, L7, Lc. lia. }
   unfold tm_unpack. rewrite D. rewrite sph_unpack_pack by exact HV. cbn [bind].
   unfold get_total_space_packet_len_from_len_field. change (dlen h) with (7 + len stamp + len src + 1).
   rewrite Ltot.
-  destruct (7 + len stamp + len src + 1 + 6 + 1 >? 15 + len stamp + len src) eqn:E1; [lia|].
+  destruct (7 + len stamp + len src + 1 + 6 + 1 >? 15 + len stamp + len src + len rest) eqn:E1; [lia|].
   unfold CCSDS_HEADER_LEN. rewrite slice_from_app by (rewrite Lh; reflexivity).
   (* secondary header *)
-  assert (TS : tmsec_unpack (sec7 ++ stamp ++ src ++ crc) (len stamp) =
+  assert (TS : tmsec_unpack (sec7 ++ stamp ++ src ++ crc ++ rest) (len stamp) =
                Ok {| tms_version := 2; tms_ref := ref; tms_service := service; tms_subservice := k;
                      tms_msgcnt := msgcnt; tms_dest := dest; tms_stamp := stamp |}).
   { destruct (ref_bits ref Hr) as (B1 & B2 & _).
@@ -416,22 +416,202 @@ Proof.
   rewrite TS. cbn [bind]. unfold tmsec_header_size; cbn [tms_stamp].
   destruct (7 + len stamp + len src + 1 + 6 + 1 <? 7 + len stamp + 6 + 2) eqn:E4; [lia|].
   (* CRC over the declared packet *)
-  assert (ST : slice_to (sph_layout h ++ sec7 ++ stamp ++ src ++ crc) (7 + len stamp + len src + 1 + 6 + 1)
+  assert (ST : slice_to (sph_layout h ++ sec7 ++ stamp ++ src ++ crc ++ rest) (7 + len stamp + len src + 1 + 6 + 1)
                = sph_layout h ++ sec7 ++ stamp ++ src ++ crc).
-  { unfold slice_to. apply firstn_all2. unfold len in *. lia. }
+  { replace (sph_layout h ++ sec7 ++ stamp ++ src ++ crc ++ rest) with ((sph_layout h ++ sec7 ++ stamp ++ src ++ crc) ++ rest)
+      by (rewrite <- !app_assoc; reflexivity).
+    apply slice_to_app. rewrite !len_app, Lh, L7, Lc. lia. }
   rewrite ST.
   assert (BC : sph_layout h ++ sec7 ++ stamp ++ src ++ crc = body ++ be_encode 2 (crc16 body)).
   { unfold crc. rewrite crc_octets_be by exact WB. unfold body, tm_body. fold h. fold sec7.
     rewrite <- !app_assoc. reflexivity. }
-  rewrite BC at 1. rewrite crc_residue by exact WB. change (negb (0 =? 0)) with false. cbv iota.
+  rewrite BC. rewrite crc_residue by exact WB. change (negb (0 =? 0)) with false. cbv iota.
   (* source data and CRC slices *)
-  assert (S1 : slice (sph_layout h ++ sec7 ++ stamp ++ src ++ crc) (7 + len stamp + 6) (7 + len stamp + len src + 1 + 6 + 1 - 2) = src).
-  { replace (sph_layout h ++ sec7 ++ stamp ++ src ++ crc) with ((sph_layout h ++ sec7 ++ stamp) ++ src ++ crc)
+  assert (S1 : slice (sph_layout h ++ sec7 ++ stamp ++ src ++ crc ++ rest) (7 + len stamp + 6) (7 + len stamp + len src + 1 + 6 + 1 - 2) = src).
+  { replace (sph_layout h ++ sec7 ++ stamp ++ src ++ crc ++ rest) with ((sph_layout h ++ sec7 ++ stamp) ++ src ++ (crc ++ rest))
       by (rewrite <- !app_assoc; reflexivity).
     apply slice_mid; rewrite !len_app, Lh, L7; lia. }
-  assert (S2 : slice (sph_layout h ++ sec7 ++ stamp ++ src ++ crc) (7 + len stamp + len src + 1 + 6 + 1 - 2) (7 + len stamp + len src + 1 + 6 + 1) = crc).
-  { replace (sph_layout h ++ sec7 ++ stamp ++ src ++ crc) with ((sph_layout h ++ sec7 ++ stamp ++ src) ++ crc)
+  assert (S2 : slice (sph_layout h ++ sec7 ++ stamp ++ src ++ crc ++ rest) (7 + len stamp + len src + 1 + 6 + 1 - 2) (7 + len stamp + len src + 1 + 6 + 1) = crc).
+  { replace (sph_layout h ++ sec7 ++ stamp ++ src ++ crc ++ rest) with ((sph_layout h ++ sec7 ++ stamp ++ src) ++ crc ++ rest)
       by (rewrite <- !app_assoc; reflexivity).
-    apply slice_after_clamp; rewrite !len_app, Lh, L7; try rewrite Lc; lia. }
+    apply slice_mid; rewrite !len_app, Lh, L7; try rewrite Lc; lia. }
   rewrite S1, S2. reflexivity.
+Qed.
+
+Lemma s1_tm_unpack_layout service k apid seq msgcnt ref dest version stamp src :
+  tm_args_valid service k apid seq msgcnt ref dest version stamp src ->
+  tm_unpack (tm_layout service k apid seq msgcnt ref dest version stamp src) (len stamp) =
+  Ok (mk_tm service k apid seq msgcnt ref dest version stamp src
+            (Some (crc_octets (tm_body service k apid seq msgcnt ref dest version stamp src)))).
+Proof.
+  intros V. pose proof (s1_tm_unpack_layout_app _ _ _ _ _ _ _ _ _ _ [] V) as E.
+  rewrite app_nil_r in E. exact E.
+Qed.
+
+(* ================= Service1Tm: constructor, pack ================= *)
+
+Lemma srv1_src_len_ge h step fail : 4 <= len (srv1_src_layout h step fail).
+Proof.
+  unfold srv1_src_layout. rewrite len_app. change (len (reqid_layout h)) with 4.
+  pose proof (len_nonneg (match step with None => [] | Some (w, v) => enum_layout w v end
+                          ++ match fail with None => [] | Some (w, c, d) => enum_layout w c ++ d end)). lia.
+Qed.
+
+Lemma tm_new_empty_ok k stamp apid seq ref dest version :
+  0 <= k < 256 -> 0 <= apid <= 2047 -> 0 <= seq <= 16383 -> len stamp <= 65527 ->
+  tm_new S1_VERIFICATION k stamp [] apid seq 0 ref dest version =
+  Ok (mk_tm 1 k apid seq 0 ref dest version stamp [] None).
+Proof.
+  intros Hk Ha Hq L. pose proof (len_nonneg stamp). unfold tm_new, tm_data_len, TMSEC_MIN_LEN.
+  change (len []) with 0.
+  rewrite sph_new_ok by (assumption || lia). cbn [bind].
+  unfold tmsec_new, S1_VERIFICATION.
+  destruct ((1 >? 255) || (1 <? 0)) eqn:E1; [lia|].
+  destruct ((k >? 255) || (k <? 0)) eqn:E2; [lia|].
+  destruct ((0 >? 65535) || (0 <? 0)) eqn:E3; [lia|].
+  reflexivity.
+Qed.
+
+(* Service1Tm.__init__ for matching parameters: the source data is the layout, the length
+   field follows *)
+Theorem srv1_new_spec apid k seq version ref dest stamp h step fail :
+  1 <= k <= 8 -> srv1_args_valid apid k seq version ref dest stamp h step fail ->
+  srv1_shape_ok k (has step) (has fail) ->
+  srv1_new apid k stamp (Some (mk_vp h step fail)) seq version ref dest =
+  Ok {| s1_tm := mk_tm 1 k apid seq 0 ref dest version stamp (srv1_src_layout h step fail) None;
+        s1_vp := mk_vp h step fail |}.
+Proof.
+  intros K (V & HV & SF & FF) Sh. unfold tm_args_valid in V.
+  destruct V as (Hs & Hk & Ha & Hq & Hm & Hr & Hd & Hv & Ws & Wd & L).
+  pose proof (srv1_src_len_ge h step fail). unfold srv1_new.
+  rewrite tm_new_empty_ok by (assumption || lia). cbn [bind].
+  destruct (vp_verify_iff (mk_vp h step fail) k K) as [OKv _].
+  rewrite OKv by (unfold mk_vp; cbn [vp_step vp_fn]; destruct step as [[? ?]|], fail as [[[? ?] ?]|]; exact Sh).
+  cbn [bind]. destruct (vp_pack_layout h step fail HV SF FF) as [-> _]. cbn [bind]. reflexivity.
+Qed.
+
+(* parameter sets that do not match the subservice are refused with InvalidVerifParams *)
+Theorem srv1_param_mismatch_refused apid k seq version ref dest stamp h step fail :
+  1 <= k <= 8 -> 0 <= apid <= 2047 -> 0 <= seq <= 16383 -> len stamp <= 65527 ->
+  ~ srv1_shape_ok k (has step) (has fail) ->
+  srv1_new apid k stamp (Some (mk_vp h step fail)) seq version ref dest = Err EVerifParams.
+Proof.
+  intros K Ha Hq L Sh. unfold srv1_new.
+  rewrite tm_new_empty_ok by (assumption || lia). cbn [bind].
+  destruct (vp_verify_iff (mk_vp h step fail) k K) as [_ Bad].
+  rewrite Bad; [reflexivity|].
+  unfold mk_vp; cbn [vp_step vp_fn]. destruct step as [[? ?]|], fail as [[[? ?] ?]|]; exact Sh.
+Qed.
+
+(* pack = the PUS-C telemetry layout around request ID ++ step ++ code ++ data *)
+Theorem srv1_pack_layout apid k seq version ref dest stamp h step fail crc :
+  srv1_args_valid apid k seq version ref dest stamp h step fail ->
+  let src := srv1_src_layout h step fail in
+  srv1_pack {| s1_tm := mk_tm 1 k apid seq 0 ref dest version stamp src crc; s1_vp := mk_vp h step fail |} =
+  Ok (srv1_layout apid k seq version ref dest stamp h step fail,
+      {| s1_tm := mk_tm 1 k apid seq 0 ref dest version stamp src
+                        (Some (crc_octets (tm_body 1 k apid seq 0 ref dest version stamp src)));
+         s1_vp := mk_vp h step fail |}).
+Proof.
+  intros (V & _) src. unfold srv1_pack; cbn [s1_tm s1_vp].
+  rewrite s1_tm_pack_layout by exact V. reflexivity.
+Qed.
+
+Theorem srv1_layout_length apid k seq version ref dest stamp h step fail :
+  len (srv1_layout apid k seq version ref dest stamp h step fail)
+  = 15 + len stamp + len (srv1_src_layout h step fail).
+Proof.
+  unfold srv1_layout, tm_layout, tm_body. rewrite !len_app.
+  change (len (sph_layout _)) with 6. change (len [_; _; _; _; _; _; _]) with 7.
+  change (len [_; _]) with 2. lia.
+Qed.
+
+(* ================= decoding the source data ================= *)
+
+Definition cfg_matches (cfg : unpack_params) (step : option (Z * Z)) (fail : option (Z * Z * bytes)) : Prop :=
+  match step with Some (w, _) => up_step cfg = w | None => True end /\
+  match fail with Some (w, _, _) => up_err cfg = w | None => True end.
+
+Lemma fn_unpack_layout_clamp w c d nd : enum_fits w c -> len d <= nd ->
+  fn_unpack (enum_layout w c ++ d) w (Some nd) = Ok (mk_fn w c d).
+Proof.
+  intros F L. pose proof F as [W _]. unfold fn_unpack.
+  rewrite pfe_unpack_layout by assumption. cbn [bind].
+  rewrite slice_after_clamp by (rewrite ?enum_layout_len by assumption; lia). reflexivity.
+Qed.
+
+Lemma reqid_unpack_layout_exact h : sph_valid h -> reqid_unpack (reqid_layout h) = Ok (reqid_from_sph h).
+Proof. intros H. pose proof (reqid_unpack_layout h [] H) as E. rewrite app_nil_r in E. exact E. Qed.
+
+Lemma pfe_unpack_layout_exact w v : enum_fits w v -> pfe_unpack (enum_layout w v) (w * 8) = Ok (mk_pfe w v).
+Proof. intros F. pose proof (pfe_unpack_layout w v [] F) as E. rewrite app_nil_r in E. exact E. Qed.
+
+Ltac eval_eqb :=
+  unfold SUB_STEP_FAIL, SUB_STEP_OK;
+  repeat match goal with
+  | |- context [Z.eqb ?a ?b] =>
+      let r := eval vm_compute in (Z.eqb a b) in
+      match r with
+      | true => change (Z.eqb a b) with true
+      | false => change (Z.eqb a b) with false
+      end
+  end.
+
+(* Service1Tm._unpack_raw_tm on a telemetry object whose source data is the layout and whose
+   subservice is k, with the widths the report was built with: the parameters come back *)
+Theorem unpack_raw_tm_layout t vp0 k h step fail cfg :
+  1 <= k <= 8 -> sph_valid h -> step_fits step -> fail_fits fail ->
+  srv1_shape_ok k (has step) (has fail) -> cfg_matches cfg step fail ->
+  tm_src t = srv1_src_layout h step fail -> tms_subservice (tm_sec t) = k ->
+  vp_step vp0 = None -> vp_fn vp0 = None ->
+  unpack_raw_tm {| s1_tm := t; s1_vp := vp0 |} cfg = Ok {| s1_tm := t; s1_vp := mk_vp h step fail |}.
+Proof.
+  intros K HV SF FF Sh (CS & CF) Hsrc Hk V0s V0f.
+  (* acceptance / start / completion failure: no step ID *)
+  Ltac fail_case :=
+    cbn [app]; eval_eqb; cbn [negb orb]; cbv iota; cbn [bind];
+    match goal with L4' : len (reqid_layout _) = 4, Wwe : enum_width_ok _ |- _ =>
+      rewrite !len_app, L4', enum_layout_len by assumption end;
+    match goal with d : bytes |- _ => pose proof (len_nonneg d) end;
+    match goal with |- context [if ?c then _ else _] => destruct c eqn:?E2; [lia|] end;
+    rewrite slice_from_app by reflexivity;
+    rewrite fn_unpack_layout_clamp by (assumption || lia); reflexivity.
+  pose proof (srv1_src_len_ge h step fail) as L4.
+  unfold unpack_raw_tm; cbn [s1_tm s1_vp]. rewrite Hsrc.
+  destruct (len (srv1_src_layout h step fail) <? 4) eqn:E; [lia|].
+  assert (S04 : slice (srv1_src_layout h step fail) 0 4 = reqid_layout h).
+  { unfold srv1_src_layout. rewrite slice_0. apply slice_to_app. reflexivity. }
+  rewrite S04, reqid_unpack_layout_exact by assumption. cbn [bind].
+  unfold set_req, srv1_subservice; cbn [s1_tm s1_vp]. rewrite Hk, V0s, V0f.
+  unfold srv1_shape_ok in Sh. destruct Sh as [Sf Ss].
+  unfold unpack_failure_verification, unpack_success_verification, srv1_is_step_reply, srv1_subservice,
+    set_step, set_fn; cbn [s1_tm s1_vp vp_req vp_step vp_fn]. rewrite Hsrc, Hk.
+  unfold srv1_src_layout in *.
+  assert (L4' : len (reqid_layout h) = 4) by reflexivity.
+  destruct (k_cases k K) as [->|[->|[->|[->|[->|[->|[->| ->]]]]]]];
+    destruct step as [[ws v]|], fail as [[[we c] d]|]; cbn in Sf, Ss; try discriminate;
+    cbn [step_fits fail_fits] in SF, FF; cbn [mk_vp] in *;
+    try (match type of FF with _ /\ _ => destruct FF as [FF Wd] end; pose proof FF as [Wwe _]; pose proof (enum_width_pos we Wwe));
+    try (pose proof SF as [Wws _]; pose proof (enum_width_pos ws Wws));
+    try subst ws; try subst we;
+    change (1 mod 2 =? 0) with false; change (2 mod 2 =? 0) with true; change (3 mod 2 =? 0) with false;
+    change (4 mod 2 =? 0) with true; change (5 mod 2 =? 0) with false; change (6 mod 2 =? 0) with true;
+    change (7 mod 2 =? 0) with false; change (8 mod 2 =? 0) with true; cbv iota.
+  - (* 1 *) reflexivity.
+  - (* 2 *) fail_case.
+  - (* 3 *) reflexivity.
+  - (* 4 *) fail_case.
+  - (* 5 *) eval_eqb. cbv iota.
+    rewrite app_nil_r.
+    rewrite slice_after by (rewrite ?enum_layout_len by assumption; reflexivity).
+    rewrite pfe_unpack_layout_exact by assumption. reflexivity.
+  - (* 6 *) eval_eqb. cbn [negb orb]. cbv iota. cbn [bind].
+    rewrite !len_app, L4', !enum_layout_len by assumption. pose proof (len_nonneg d).
+    destruct (4 + (up_step cfg + (up_err cfg + len d)) <? up_err cfg + up_step cfg) eqn:E2; [lia|].
+    rewrite slice_from_app by reflexivity.
+    rewrite pfe_unpack_layout by assumption. cbn [bind].
+    rewrite app_assoc. rewrite slice_from_app by (rewrite len_app, L4', enum_layout_len by assumption; reflexivity).
+    rewrite fn_unpack_layout_clamp by (assumption || lia). reflexivity.
+  - (* 7 *) reflexivity.
+  - (* 8 *) fail_case.
 Qed.
